@@ -20,9 +20,6 @@ TRUSTED = C04.TRUSTED + [
     "VcfReader: the ploidy-consistency checks are not modelled (all generated genotypes are diploid); genotype "
     "likelihood / allele depth parsing is not used",
     "what was written = the super-reads and components recorded by the WHATSHAP_VERIF_TRACE hook of whatshap phase",
-    "when the real VcfReader dies with the known AttributeError (HP tuple containing None) the remaining "
-    "specification checks of that file are evaluated on the Coq reader model with the repaired guard, applied to the "
-    "pysam-parsed records of the real output",
 ]
 ASSUMPTIONS = [
     "C09_decode_encode_HP and the repaired-writer theorems speak about diploid, bi-allelic phase tuples ((0,1) or (1,0)): "
@@ -36,10 +33,8 @@ Record pstep := mkPStep { p_only_snvs : bool; p_end_decl : bool; p_plan : list (
   p_outPS : list vrec; p_outHP : list vrec; p_readPS : res tabs; p_readHP : res tabs }.
 Definition cfP (k : pstep) := mkCfg TagPS (p_only_snvs k) false (p_end_decl k).
 Definition cfH (k : pstep) := mkCfg TagHP (p_only_snvs k) false (p_end_decl k).
-(* tables used for the specification checks: the real read-back; if it died with the AttributeError of the
-   HP guard, the reader model with the repaired guard on the same records *)
-Definition eff (out : list vrec) (real : res tabs) : res tabs :=
-  match real with Err EAttr => read_file fix_guard false false out | _ => real end.
+(* tables used for the specification checks: the real read-back *)
+Definition eff (out : list vrec) (real : res tabs) : res tabs := real.
 Definition okb {A} (r : res A) (f : A -> bool) : bool := match r with Ok a => f a | Err _ => false end.
 Definition w_l2 (cf : cfg) (k : pstep) (out : list vrec) : bool :=
   match phase_writer cf the_rules (p_plan k) (p_in k) with Ok o' => all2 rec_sim out o' | Err _ => false end.
@@ -488,7 +483,7 @@ def evaluate(ctx, P, U, R):
             if i in F["equiv"] and i not in F["decode_PS_ok"] and i not in F["decode_HP_ok"]:
                 report("c09:encodings-differ", "PS and HP outputs of the same run decode differently although each decodes to what was written", c)
             if i in F["fixed_ok"]:
-                ctx.l2_disagreement("the repaired writer/decoder model does not satisfy the specification on this input", [c["desc"]])
+                ctx.l2_disagreement("the writer/decoder model does not satisfy the specification on this input", [c["desc"]])
         for lab in ("l2_writer_PS", "l2_writer_HP", "l2_reader_PS", "l2_reader_HP"):
             if failing[lab]:
                 ctx.disagreements_checked += len(failing[lab])
